@@ -397,3 +397,26 @@ cbv zeta. destruct (flt _ zero).
 Qed.
 
 End WithLibm3.
+
+(* ================= reflection law, angle level (S2) ================= *)
+Lemma reflect_law g axis : canonp (rem (ang g)) -> Canon (ang axis) ->
+  Rabs (theta (ang (reflect g axis)) - (2 * theta (ang axis) + 8 * R_ Q - theta (base_angle (ang g))))
+    <= 3 * R_ eps10 + 7 * / 4503599627370496.
+Proof.
+intros Cg [Ca Ba].
+unfold reflect. cbn [gnew_with_angle ang]. unfold add_vv, sub_vv. rewrite new_4_1.
+set (c8 := {| rem := zero; blade := 8 |}).
+set (bp := base_angle (ang g)).
+assert (Cb : canonp (rem bp)) by exact Cg.
+assert (Bb : (blade bp + 1 <= blade c8)%Z).
+{ unfold bp, c8, base_angle, grade. cbn [blade]. pose proof (Z.mod_pos_bound (blade (ang g)) 4 ltac:(lia)). lia. }
+pose proof (geometric_sub_total c8 bp canonp_zero Cb Bb) as S1.
+destruct (geometric_sub_canon c8 bp canonp_zero Cb) as [Cc _].
+pose proof (geometric_add_total (ang axis) (ang axis) Ca Ca) as S2.
+destruct (geometric_add_canon (ang axis) (ang axis) Ca Ca) as [C2 _].
+pose proof (geometric_add_total (geometric_add (ang axis) (ang axis)) (geometric_sub c8 bp) C2 Cc) as S3.
+assert (T8 : theta c8 = 8 * R_ Q). { unfold theta, c8. cbn [rem blade]. rewrite R_zero. ring. }
+rewrite T8 in S1.
+apply Rabs_le_inv in S1. apply Rabs_le_inv in S2. apply Rabs_le_inv in S3.
+apply Rabs_le. lra.
+Qed.
